@@ -1,0 +1,47 @@
+//go:build verif
+
+package eventscope
+
+// Machine-checked contracts for /verif (gowp). Comment-only file: it adds no code.
+
+//@ type EventScope
+//@   field eventsCallbacks guarded_by mu
+//@ type ChildEventScope
+//@   field callbacks guarded_by mu
+//@   field parent immutable
+
+// listeners run in registration order with the event data; the first error stops the trigger
+//@ func (*EventScope).Trigger [C11]
+//@   layers contract trace lock
+//@   loop 1 invariant -1 <= $i && heldR(es.mu)
+//@   loop 1 step $i == prev($i) + 1
+//@   at_call dynamic.* requires $0 == data
+//@   trace dynamic.* as CB bind cberr
+//@   ensures result != nil ==> result == cberr
+
+// On appends at the end of the event's listener list
+//@ func (*EventScope).On [C11]
+//@   requires es.eventsCallbacks != nil
+//@   ensures has(es.eventsCallbacks, eID) && len(es.eventsCallbacks[eID]) == ite(old(has(es.eventsCallbacks, eID)), old(len(es.eventsCallbacks[eID])), 0) + 1
+//@   ensures ref(es.eventsCallbacks[eID][len(es.eventsCallbacks[eID]) - 1]) == ref(callback)
+//@   ensures old(has(es.eventsCallbacks, eID)) ==> forall(k, 0 <= k && k < old(len(es.eventsCallbacks[eID])) ==> ref(es.eventsCallbacks[eID][k]) == old(ref(es.eventsCallbacks[eID][k])))
+
+// the parent's listeners run before the child's; a parent error stops the trigger
+//@ func (*ChildEventScope).Trigger [C11]
+//@   layers contract trace lock
+//@   requires es.parent != nil
+//@   loop 1 invariant -1 <= $i && heldR(es.mu) && perr == nil
+//@   loop 1 step $i == prev($i) + 1
+//@   trace EventScope.Trigger as PARENT bind perr
+//@   trace dynamic.* as CB bind cberr
+//@   at_call EventScope.Trigger requires $0 == eID && $1 == data
+//@   at_call dynamic.* requires $0 == data && perr == nil
+//@   trace_ensures perr != nil : ^PARENT $
+//@   ensures perr != nil ==> err == perr
+//@   ensures perr == nil && err != nil ==> err == cberr
+
+//@ func (*ChildEventScope).On [C11]
+//@   requires es.callbacks != nil
+//@   ensures has(es.callbacks, eID) && len(es.callbacks[eID]) == ite(old(has(es.callbacks, eID)), old(len(es.callbacks[eID])), 0) + 1
+//@   ensures ref(es.callbacks[eID][len(es.callbacks[eID]) - 1]) == ref(callback)
+//@   ensures old(has(es.callbacks, eID)) ==> forall(k, 0 <= k && k < old(len(es.callbacks[eID])) ==> ref(es.callbacks[eID][k]) == old(ref(es.callbacks[eID][k])))
